@@ -60,6 +60,8 @@ pub struct Cfg {
     pub min_ion_index: usize,
     /// 0 = no TMT quantification, else the plex (6, 10, 11, 16, 18), always at MS2 level
     pub tmt: u8,
+    /// `override_precursor_charge`: ignore the annotated charge and search z_lo..=z_hi
+    pub override_charge: bool,
 }
 
 #[derive(Clone, Debug)]
@@ -118,7 +120,7 @@ pub fn encode(r: &Request) -> String {
         Some(x) => o.n(1).n(x),
         None => o.n(0),
     };
-    o.b(c.deisotope).b(c.annotate).b(c.pin).b(c.predict_rt).n(c.batch).n(c.bucket).n(c.min_ion_index).n(c.tmt);
+    o.b(c.deisotope).b(c.annotate).b(c.pin).b(c.predict_rt).n(c.batch).n(c.bucket).n(c.min_ion_index).n(c.tmt).b(c.override_charge);
     o.n(r.fasta.len());
     for (a, s) in &r.fasta {
         o.s(a).s(s);
@@ -182,6 +184,7 @@ pub fn decode(t: &mut Toks) -> Option<Request> {
     let bucket = t.usize()?;
     let min_ion_index = t.usize()?;
     let tmt = t.usize()? as u8;
+    let override_charge = t.bool()?;
     let fasta = t.list(|t| Some((t.string()?, t.string()?)))?;
     let files = t.list(|t| {
         t.list(|t| {
@@ -199,7 +202,7 @@ pub fn decode(t: &mut Toks) -> Option<Request> {
         cfg: Cfg {
             cleave, restrict, cterm, semi, mc, min_len, max_len, min_mass, max_mass, statics, vars, max_var,
             decoy_tag, gen_decoys, ptol, ftol, iso, z, report_psms, chimera, min_peaks, max_peaks, min_matched,
-            max_frag_charge, deisotope, annotate, pin, predict_rt, batch, bucket, min_ion_index, tmt,
+            max_frag_charge, deisotope, annotate, pin, predict_rt, batch, bucket, min_ion_index, tmt, override_charge,
         },
         fasta,
         files,
@@ -258,6 +261,7 @@ pub fn config_json(c: &Cfg, fasta_path: &str, spectra_paths: &[String], outdir: 
         "max_fragment_charge": c.max_frag_charge,
         "min_matched_peaks": c.min_matched,
         "precursor_charge": [c.z.0, c.z.1],
+        "override_precursor_charge": c.override_charge,
         "isotope_errors": [c.iso.0, c.iso.1],
         "deisotope": c.deisotope,
         "predict_rt": c.predict_rt,
@@ -590,6 +594,7 @@ fn random_cfg(rng: &mut Rng) -> Cfg {
         bucket: *rng.pick(&[8usize, 64, 8192]),
         min_ion_index: *rng.pick(&[1usize, 2]),
         tmt: if rng.chance(1, 3) { *rng.pick(&[6u8, 10, 11, 16, 18]) } else { 0 },
+        override_charge: rng.chance(1, 4),
     }
 }
 
@@ -674,15 +679,23 @@ pub fn random_request(rng: &mut Rng, nspec: usize) -> Option<Request> {
         files[file].push(Spec {
             title: title.clone(),
             pepmz,
-            charge: if rng.chance(3, 4) { Some(z) } else { None },
+            // with override_precursor_charge the annotation is ignored by the search: annotate a WRONG charge
+            // in some spectra so that a row built from the annotation instead of the searched charge shows
+            charge: if cfg.override_charge && rng.chance(1, 2) {
+                Some(if z == 2 { 3 } else { 2 })
+            } else if rng.chance(3, 4) {
+                Some(z)
+            } else {
+                None
+            },
             rt_sec: 60.0 + 30.0 * k as f32,
             peaks,
         });
         // the property's hypothesis: a target that is the only target inside the searched precursor windows
         let charge_annotated = files[file].last().unwrap().charge;
         let zs: Vec<u8> = match charge_annotated {
-            Some(z) => vec![z],
-            None => (cfg.z.0..=cfg.z.1).collect(),
+            Some(z) if !cfg.override_charge => vec![z],
+            _ => (cfg.z.0..=cfg.z.1).collect(),
         };
         let mut unique = !pep.decoy && !cfg.deisotope;
         if unique {
@@ -720,14 +733,70 @@ pub fn random_request(rng: &mut Rng, nspec: usize) -> Option<Request> {
     Some(Request { cfg, fasta, files, planted })
 }
 
+/// directed shapes that every run must contain (index = which one)
+fn directed(rng: &mut Rng, which: usize) -> Option<Request> {
+    let mut r = random_request(rng, 9)?;
+    match which {
+        // more files than the batch size, file count not a multiple of it (last batch is short)
+        0 => {
+            r.cfg.batch = 2;
+            let all: Vec<Spec> = r.files.drain(..).flatten().collect();
+            r.files = vec![Vec::new(), Vec::new(), Vec::new()];
+            for (i, s) in all.into_iter().enumerate() {
+                r.files[i % 3].push(s);
+            }
+            for p in r.planted.iter_mut() {
+                // planted entries are re-attached by title below
+                p.file = usize::MAX;
+            }
+            let titles: Vec<(usize, String)> = r.files.iter().enumerate().flat_map(|(fi, f)| f.iter().map(move |s| (fi, s.title.clone()))).collect();
+            for p in r.planted.iter_mut() {
+                if let Some((fi, _)) = titles.iter().find(|(_, t)| *t == p.title) {
+                    p.file = *fi;
+                }
+            }
+            r.planted.retain(|p| p.file != usize::MAX);
+            if r.files.iter().any(|f| f.is_empty()) {
+                return None;
+            }
+        }
+        // charge annotation overridden, with wrong annotations present
+        1 => {
+            r.cfg.override_charge = true;
+            r.cfg.z = (2, 3);
+            for f in r.files.iter_mut() {
+                for (k, s) in f.iter_mut().enumerate() {
+                    if k % 2 == 0 {
+                        s.charge = Some(match s.charge { Some(2) => 3, Some(3) => 2, _ => 4 });
+                    }
+                }
+            }
+            // the uniqueness hypothesis was evaluated for the old annotation: drop the planted claims
+            r.planted.clear();
+        }
+        _ => {}
+    }
+    Some(r)
+}
+
 pub fn gen(rng: &mut Rng, tier: Tier, emit: &mut dyn FnMut(Case)) {
     let n = if tier == Tier::Quick { 6 } else { 150 };
     let mut made = 0;
     let mut tries = 0;
-    while made < n && tries < n * 5 {
+    let mut next_directed = 0usize;
+    while made < n + 2 && tries < (n + 2) * 5 {
         tries += 1;
         let nspec = 4 + rng.below(if tier == Tier::Quick { 8 } else { 30 });
-        if let Some(r) = random_request(rng, nspec) {
+        let req = if next_directed < 2 {
+            let r = directed(rng, next_directed);
+            if r.is_some() {
+                next_directed += 1;
+            }
+            r
+        } else {
+            random_request(rng, nspec)
+        };
+        if let Some(r) = req {
             let c = &r.cfg;
             let case = Case::new(encode(&r))
                 .tag_if(c.semi, "semi-enzymatic")
@@ -742,7 +811,9 @@ pub fn gen(rng: &mut Rng, tier: Tier, emit: &mut dyn FnMut(Case)) {
                 .tag_if(!c.statics.is_empty(), "static-mods")
                 .tag_if(c.report_psms > 1, "report_psms>1")
                 .tag_if(r.files.len() > 1, "multi-file")
-                .tag_if(c.tmt != 0, "tmt");
+                .tag_if(c.tmt != 0, "tmt")
+                .tag_if(c.override_charge, "override-precursor-charge")
+                .tag_if(r.files.len() > c.batch && r.files.len() % c.batch != 0, "short-last-batch");
             emit(case);
             made += 1;
         }
